@@ -182,6 +182,22 @@ func c07Gen(r *Rand, tier string, i int) Scenario {
 	if r.Bool(0.3) {
 		sc.Stalls = append(sc.Stalls, StallSpec{Name: "consumer.uniform", Site: siteStdoutLock, Suffix: "/lock", From: 0, To: -1, DurMs: 1})
 	}
+	if len(sc.Unknown) == 0 && r.Bool(0.04) {
+		// a session that lasts longer than 10 s with megabytes in flight: every
+		// server has a file of 24 long lines (more than the 2 MiB channel window
+		// in total) and the terminal stops taking output for 11-25 s early on, so
+		// that the servers' writes block in the middle of records for that long
+		var lens []int
+		for k := 0; k < 24; k++ {
+			lens = append(lens, PickOf(r, 70000, 150000))
+		}
+		sc.Files = []C07File{{Path: "x/only.log", ID: "only.log", Lens: lens}}
+		sc.Glob = "x/only.log"
+		sc.Compress, sc.Decoys, sc.Kind = "", nil, "cat"
+		sc.Color = false
+		h := r.Range(2, 12)
+		sc.Stalls = []StallSpec{{Name: "consumer.single", Site: siteStdoutLock, Suffix: "/lock", From: h, To: h + 1, DurMs: PickOf(r, 11000, 16000, 25000)}}
+	}
 	return sc
 }
 
